@@ -8,10 +8,11 @@ Require Import PV.Stack.Model PV.Stack.Proofs PV.Comb.PState PV.Comb.Bytes PV.Co
 
 (* ---------- valid grammars ---------- *)
 (* literals are Rust Strings, i.e. valid UTF-8; a user rule never bears a name that the semantics resolves as a built-in
-   before it looks at the user's rules (the validator rejects such grammars) *)
+   before it looks at the user's rules, and no two rules have the same name (the validator rejects such grammars) *)
 Definition literals_valid (G : grammar) : Prop := forall r, In r G -> Forall valid_utf8 (estrs (rexpr r)).
 Definition names_ok (G : grammar) : Prop := forall r, In r G -> builtin_name (rname r) = false.
-Definition valid_grammar (G : grammar) : Prop := literals_valid G /\ names_ok G.
+Definition unique_names (G : grammar) : Prop := NoDup (map rname G).
+Definition valid_grammar (G : grammar) : Prop := literals_valid G /\ names_ok G /\ unique_names G.
 
 (* ---------- "the same meaning": the same definite results of Peg.Spec.eval, at whatever fuel suffices, for every
    expression (in particular every rule name), atomicity, emit flag, position and stack, on every valid input ---------- *)
